@@ -236,23 +236,65 @@ Definition step (s : vec) (o : op) : vec :=
 
 Definition run (s : vec) (ops : list op) : vec := fold_left step ops s.
 
-(* ---- two vectors on one resource: swap / copy / move --------------------------------------------- *)
+(* ---- whole-object operations on two vectors: special member functions, swap ------------------------------ *)
+(* an object is destroyed and its name re-used for a newly constructed one: ~ReusableVector, then the delegated
+   ReusableVector(allocator) : empty, no storage.  The ghost counters of the destroyed object are carried over so that
+   the totals stay comparable with the implementation. *)
+Definition reborn (s : vec) : vec :=
+  let d := destroy_all s in mkVec 0 0 0 (fun _ => Raw) (err d) (nctor d) (ndtor d) (nalloc d).
+
+(* ReusableVector(first, last, allocator) on a new object: exactly n slots, all constructed (copy constructors) *)
+Definition range_ctor (r : vec) (vs : list Z) : vec :=
+  let n := length vs in
+  mkVec n n n (fun j => if j <? n then Con (nth j vs 0%Z) else Raw) (err r) (nctor r + n) (ndtor r) (nalloc r + n).
+
+(* a.swap(b): data, capacity, size AND constructed_size change hands (regenerated: swap_exchanges_all) *)
+Definition swap_vec (a b : vec) : vec * vec := if swap_exchanges_all then (b, a) else (fail a, fail b).
+
 Inductive op2 :=
 | OnA (o : op) | OnB (o : op)
-| Swap                      (* a.swap(b) : buffers and the three sizes change hands *)
-| CopyAB | CopyBA           (* a = b : assign(b.begin(), b.end()) *)
-| MoveAB | MoveBA.          (* a = std::move(b) (same allocator: swap) followed by b.clear() *)
+| Swap                      (* a.swap(b) / swap(a, b) / std::swap(a, b) (= move ctor + two move assignments) *)
+| CopyAB | CopyBA           (* a = b : assign(b.begin(), b.end()), any allocators *)
+| MoveAB | MoveBA           (* a = std::move(b), same allocator: swap; followed by b.clear() (b unspecified for std) *)
+| MoveABx | MoveBAx         (* a = std::move(b), different allocators: element-wise; followed by b.clear() *)
+| CCtorAB | CCtorBA         (* a replaced by a copy-constructed object (plain or allocator-extended, any allocator) *)
+| MCtorAB | MCtorBA         (* a replaced by ReusableVector(std::move(b)) : the source must be left empty and usable *)
+| MXCtorAB | MXCtorBA       (* a replaced by ReusableVector(std::move(b), alloc), alloc == b's allocator *)
+| MXCtorABx | MXCtorBAx.    (* same with a different allocator: element-wise; followed by b.clear() *)
+
+Definition move_assign_same (a b : vec) : vec * vec :=
+  if move_assign_swaps then swap_vec a b else (fail a, fail b).
+(* plain move constructor: delegates to ReusableVector(other.get_allocator()) and swaps (regenerated: move_ctor_swaps) *)
+Definition move_ctor (e b : vec) : vec * vec :=
+  if move_ctor_swaps then swap_vec e b else (fail e, fail b).
+(* allocator-extended move constructor: ReusableVector(allocator), then *this = std::move(other) *)
+Definition move_xctor_same (e b : vec) : vec * vec :=
+  if move_xctor_assigns then move_assign_same e b else (fail e, fail b).
+Definition move_xctor_diff (e b : vec) : vec * vec :=
+  if move_xctor_assigns then (assign_range e (abs b), b) else (fail e, fail b).
+
+Definition flip {A} (p : A * A) : A * A := (snd p, fst p).
 
 Definition step2 (p : vec * vec) (o : op2) : vec * vec :=
   let '(a, b) := p in
   match o with
   | OnA o => (step a o, b)
   | OnB o => (a, step b o)
-  | Swap => (b, a)
+  | Swap => swap_vec a b
   | CopyAB => (assign_range a (abs b), b)
   | CopyBA => (a, assign_range b (abs a))
-  | MoveAB => (b, clear a)
-  | MoveBA => (clear b, a)
+  | MoveAB => let q := move_assign_same a b in (fst q, clear (snd q))
+  | MoveBA => let q := move_assign_same b a in (clear (snd q), fst q)
+  | MoveABx => (assign_range a (abs b), clear b)
+  | MoveBAx => (clear a, assign_range b (abs a))
+  | CCtorAB => (range_ctor (reborn a) (abs b), b)
+  | CCtorBA => (a, range_ctor (reborn b) (abs a))
+  | MCtorAB => move_ctor (reborn a) b
+  | MCtorBA => flip (move_ctor (reborn b) a)
+  | MXCtorAB => move_xctor_same (reborn a) b
+  | MXCtorBA => flip (move_xctor_same (reborn b) a)
+  | MXCtorABx => let q := move_xctor_diff (reborn a) b in (fst q, clear (snd q))
+  | MXCtorBAx => let q := move_xctor_diff (reborn b) a in (clear (snd q), fst q)
   end.
 
 Definition run2 (p : vec * vec) (ops : list op2) : vec * vec := fold_left step2 ops p.
@@ -316,8 +358,10 @@ Definition spec_step2 (p : list Z * list Z) (o : op2) : list Z * list Z :=
   | Swap => (b, a)
   | CopyAB => (b, b)
   | CopyBA => (a, a)
-  | MoveAB => (b, [])
-  | MoveBA => ([], a)
+  | MoveAB | MoveABx | MCtorAB | MXCtorAB | MXCtorABx => (b, [])
+  | MoveBA | MoveBAx | MCtorBA | MXCtorBA | MXCtorBAx => ([], a)
+  | CCtorAB => (b, b)
+  | CCtorBA => (a, a)
   end.
 
 (* preconditions along a run, on the specification side *)
